@@ -234,12 +234,13 @@ int main(void) {
         int cnt = pending->width * pending->height, i; char *p = rest;
         pending->richSource = (unsigned char *)calloc(cnt ? cnt : 1, BPP);
         for (i = 0; i < cnt; i++) { uint32_t v = (uint32_t)strtoul(p, &p, 16); memcpy(pending->richSource + (size_t)i * BPP, &v, BPP); }
-        pending->cleanupRichSource = TRUE;
+        /* cleanupRichSource stays FALSE: this rich form is the application's, not one the library derived
+         * (rfbNewFramebuffer drops library-derived ones); the harness frees nothing - leaks are not checked */
       }
       printf("rich ok\n");
     }
     else if (!strcmp(op, "alpha")) {
-      int k; if (strcmp(rest, "-")) { pending->alphaSource = hexbytes(rest, &k); pending->cleanupRichSource = TRUE; }
+      int k; if (strcmp(rest, "-")) { pending->alphaSource = hexbytes(rest, &k); }
       printf("alpha ok\n");
     }
     else if (!strcmp(op, "setcur")) { rfbSetCursor(scr, pending); pending = NULL; if (session_mode) pump_obs("setcur"); else printf("setcur ok\n"); }
@@ -309,6 +310,19 @@ int main(void) {
       for (y = a[1]; y < a[3]; y++) for (x = a[0]; x < a[2]; x++) setpix(scr->frameBuffer, x, y, v);
       rfbMarkRectAsModified(scr, a[0], a[1], a[2], a[3]);
       pump_obs("fill");
+    }
+    else if (!strcmp(op, "newfb")) {
+      /* newfb <bitsPerSample> <pixels>: rfbNewFramebuffer with the same size and pixel size; every client
+       * then asks for the new server format, so that no pixel translation is involved */
+      char *p = rest, *old = scr->frameBuffer, *nf = (char *)calloc((size_t)W * H, BPP); int x, y, i, bps;
+      bps = (int)strtol(p, &p, 10);
+      for (y = 0; y < H; y++) for (x = 0; x < W; x++) setpix(nf, x, y, (uint32_t)strtoul(p, &p, 16));
+      rfbNewFramebuffer(scr, nf, W, H, bps, 3, BPP);
+      free(old);
+      for (i = 0; i < MAXCL; i++) if (cls[i] && !gone[i])
+        vs_send_pixfmt(peers[i], 8 * BPP, 8 * BPP, 0, 1, scr->serverFormat.redMax, scr->serverFormat.greenMax, scr->serverFormat.blueMax,
+                       scr->serverFormat.redShift, scr->serverFormat.greenShift, scr->serverFormat.blueShift);
+      if (session_mode) pump_obs("newfb"); else printf("newfb ok\n");
     }
     else if (!strcmp(op, "defcur")) {
       /* back to the cursor the screen was created with (the library's default cursor) */
